@@ -1,6 +1,1598 @@
-//! stub (engine under construction)
+//! C10: problem validation is total and matches its documented rules (fault injection over valid
+//! documents judged by a three-valued reference reading of docs/.../errors/index.md; broken JSON).
+
+use super::common::{T0, fmt_time, parse_time};
+use super::pgen::{ProblemSpec, for_each_location, problem_spec, render};
 use crate::fw::*;
+use proptest::prelude::*;
+use serde::{Deserialize, Serialize};
+use serde_json::json;
+use std::collections::{BTreeMap, BTreeSet, HashMap, HashSet};
+use vrp_pragmatic::format::problem::{self as api, Objective as Obj, PragmaticProblem};
+use vrp_pragmatic::format::{CustomLocationType, Location as Loc, MultiFormatError};
+
+const PROPERTY: &str = "C10";
+
+#[derive(Clone, Debug, Serialize, Deserialize)]
+pub struct FaultSel {
+    pub kind: String,
+    pub a: u16,
+    pub b: u16,
+    pub c: u16,
+}
+
+#[derive(Clone, Debug, Serialize, Deserialize)]
+pub struct ValCase {
+    pub spec: ProblemSpec,
+    /// all locations as geo coordinates, read without matrices (approximated routing)
+    pub geo: bool,
+    pub faults: Vec<FaultSel>,
+}
+
+#[derive(Clone)]
+struct Doc {
+    p: api::Problem,
+    m: Vec<api::Matrix>,
+    approx: bool,
+}
+
+struct Applied {
+    label: String,
+    not_first: bool,
+    /// generic codes (E0xxx) the reader may answer with for this fault
+    allow: &'static [&'static str],
+}
+
+impl Applied {
+    /// Name used in panic signatures: families with one root condition (checked on the final document as
+    /// `Rules::derived`) are not split by variant.
+    fn sig(&self) -> &str {
+        ["matrix.ragged", "relation.special-id-dangling"].into_iter().find(|f| self.label.starts_with(f)).unwrap_or(self.label.as_str())
+    }
+}
+
+// ---------------------------------------------------------------------------------------------
+// reading (code under test)
+// ---------------------------------------------------------------------------------------------
+
+fn ser<T: Serialize>(v: &T) -> String {
+    serde_json::to_string(v).unwrap_or_default()
+}
+
+fn codes_of(r: Result<vrp_core::models::Problem, MultiFormatError>) -> Vec<String> {
+    match r {
+        Ok(_) => vec![],
+        Err(e) if e.errors.is_empty() => vec!["EMPTY-ERROR-LIST".to_string()],
+        Err(e) => e.errors.iter().map(|e| e.code.clone()).collect(),
+    }
+}
+
+/// Ok(codes) (empty = accepted) or Err(panic message).
+fn read(d: &Doc, text: bool) -> Result<Vec<String>, String> {
+    guard(|| {
+        codes_of(match (text, d.approx) {
+            (false, false) => (d.p.clone(), d.m.clone()).read_pragmatic(),
+            (false, true) => d.p.clone().read_pragmatic(),
+            (true, false) => (ser(&d.p), d.m.iter().map(ser).collect::<Vec<_>>()).read_pragmatic(),
+            (true, true) => ser(&d.p).read_pragmatic(),
+        })
+    })
+}
+
+// ---------------------------------------------------------------------------------------------
+// reference reading of the documented rules (three-valued)
+// ---------------------------------------------------------------------------------------------
+
+const ALL_RULES: [&str; 38] = [
+    "E1100", "E1101", "E1102", "E1103", "E1104", "E1105", "E1106", "E1107", "E1200", "E1201", "E1202", "E1203", "E1204", "E1205", "E1206", "E1207", "E1300", "E1301", "E1302", "E1303", "E1304", "E1306", "E1307", "E1308", "E1500", "E1501",
+    "E1502", "E1503", "E1504", "E1505", "E1600", "E1601", "E1602", "E1603", "E1604", "E1605", "E1606", "E1607",
+];
+const MALFORMED: [&str; 9] = ["", "not-a-date", "2020-01-01", "2020-13-01T00:00:00Z", "2020-02-30T00:00:00Z", "2020-01-01T25:00:00Z", "2020-01-01T00:00:00", "1577836800", "2020-01-01T00:00:00ZZ"];
+
+#[derive(Clone, Copy, PartialEq, Debug)]
+enum Tm {
+    At(i64),
+    Bad,
+    Unknown,
+}
+
+/// Strict RFC3339 (upper case T/Z) => At; member of the clearly malformed list => Bad; else Unknown.
+fn ptime(s: &str) -> Tm {
+    let b = s.as_bytes();
+    let dig = |i: usize| b.get(i).is_some_and(|c| c.is_ascii_digit());
+    let num = |i: usize| ((b[i] - b'0') as i64) * 10 + (b[i + 1] - b'0') as i64;
+    if b.len() >= 20 && [0, 1, 2, 3, 5, 6, 8, 9, 11, 12, 14, 15, 17, 18].iter().all(|i| dig(*i)) && b[4] == b'-' && b[7] == b'-' && b[10] == b'T' && b[13] == b':' && b[16] == b':' {
+        let (y, mo, d, h, mi, se) = (num(0) * 100 + num(2), num(5), num(8), num(11), num(14), num(17));
+        let dim = match mo {
+            1 | 3 | 5 | 7 | 8 | 10 | 12 => 31,
+            4 | 6 | 9 | 11 => 30,
+            2 if y % 4 == 0 && (y % 100 != 0 || y % 400 == 0) => 29,
+            2 => 28,
+            _ => 0,
+        };
+        let mut k = 19;
+        let mut frac_ok = true;
+        if b[k] == b'.' {
+            k += 1;
+            let s0 = k;
+            while dig(k) {
+                k += 1;
+            }
+            frac_ok = k > s0;
+        }
+        let tail = &s[k..];
+        let tz_ok = tail == "Z" || (tail.len() == 6 && (b[k] == b'+' || b[k] == b'-') && dig(k + 1) && dig(k + 2) && b[k + 3] == b':' && dig(k + 4) && dig(k + 5) && num(k + 1) <= 23 && num(k + 4) <= 59);
+        if y >= 1 && d >= 1 && d <= dim && h <= 23 && mi <= 59 && se <= 59 && frac_ok && tz_ok {
+            if let Some(t) = parse_time(s) {
+                return Tm::At(t);
+            }
+        }
+    }
+    if MALFORMED.contains(&s) { Tm::Bad } else { Tm::Unknown }
+}
+
+#[derive(Default)]
+struct Rules {
+    broken: BTreeMap<&'static str, BTreeSet<String>>,
+    unspec: BTreeSet<&'static str>,
+    /// fault families whose defining condition holds on the document (possibly produced by a combination
+    /// of other faults); used to attribute panics: sparse index set, dangling special relation ids
+    derived: Vec<String>,
+}
+
+impl Rules {
+    fn b(&mut self, code: &'static str, site: impl Into<String>) {
+        self.broken.entry(code).or_default().insert(site.into());
+    }
+    fn u(&mut self, code: &'static str) {
+        self.unspec.insert(code);
+    }
+}
+
+fn nc(n: usize) -> &'static str {
+    if n >= 3 { "n3+" } else { "n1-2" }
+}
+
+/// Time-window rules of E1103: (broken kinds, unspecified?, well-formed windows).
+fn analyse(tws: &[Vec<String>], pairs: bool) -> (Vec<&'static str>, bool, Vec<(i64, i64)>) {
+    let (mut broken, mut unspec, mut ok) = (vec![], tws.is_empty(), vec![]);
+    for tw in tws {
+        if tw.len() != 2 {
+            broken.push("arity");
+            continue;
+        }
+        match (ptime(&tw[0]), ptime(&tw[1])) {
+            (Tm::Bad, _) | (_, Tm::Bad) => broken.push("malformed"),
+            (Tm::At(a), Tm::At(b)) if a > b => broken.push("inverted"),
+            (Tm::At(a), Tm::At(b)) => {
+                unspec |= a == b; // docs: "start date is earlier than end date"; code accepts equality
+                ok.push((a, b));
+            }
+            _ => unspec = true,
+        }
+    }
+    for i in 0..ok.len() {
+        for j in (i + 1)..ok.len() {
+            let (a, b) = (ok[i], ok[j]);
+            if a.0 < b.1 && b.0 < a.1 {
+                if pairs {
+                    broken.push("intersect");
+                } else {
+                    unspec = true;
+                }
+            } else if pairs && a.0 <= b.1 && b.0 <= a.1 {
+                unspec = true; // touching windows
+            }
+        }
+    }
+    (broken, unspec, ok)
+}
+
+fn reserved(id: &str) -> bool {
+    matches!(id, "departure" | "arrival" | "break" | "reload")
+}
+
+fn task_count(j: &api::Job) -> usize {
+    [&j.pickups, &j.deliveries, &j.replacements, &j.services].iter().map(|t| t.as_ref().map_or(0, |t| t.len())).sum()
+}
+
+fn is_cost(o: &Obj) -> bool {
+    matches!(o, Obj::MinimizeCost | Obj::MinimizeDistance | Obj::MinimizeDuration)
+}
+
+fn reference(d: &Doc) -> Rules {
+    let mut r = Rules::default();
+    let p = &d.p;
+    // ---- E11xx jobs
+    let mut id_count = HashMap::<&str, usize>::new();
+    for j in &p.plan.jobs {
+        *id_count.entry(j.id.as_str()).or_default() += 1;
+    }
+    if id_count.values().any(|c| *c > 1) {
+        r.b("E1100", "jobs");
+    }
+    for j in &p.plan.jobs {
+        let kinds = [("pickups", &j.pickups), ("deliveries", &j.deliveries), ("replacements", &j.replacements), ("services", &j.services)];
+        if reserved(&j.id) {
+            r.b("E1104", "jobs");
+        }
+        if task_count(j) == 0 {
+            r.b("E1105", "jobs");
+        }
+        for (kind, tasks) in kinds.iter() {
+            for t in tasks.iter().flatten() {
+                match (&t.demand, *kind == "services") {
+                    (None, false) => r.b("E1101", format!("{kind}:missing")),
+                    (Some(dm), _) if dm.is_empty() => r.u("E1101"),
+                    (Some(_), true) => r.b("E1101", "services:present"),
+                    _ => {}
+                }
+                if t.demand.iter().flatten().any(|x| *x < 0) {
+                    r.b("E1107", *kind);
+                }
+                for pl in &t.places {
+                    if pl.duration < 0. {
+                        r.b("E1106", *kind);
+                    } else if pl.duration.is_sign_negative() {
+                        r.u("E1106");
+                    }
+                    if let Some(tws) = &pl.times {
+                        let (broken, unspec, _) = analyse(tws, true);
+                        for w in broken {
+                            r.b("E1103", format!("{kind}:{w}:{}", nc(tws.len())));
+                        }
+                        if unspec {
+                            r.u("E1103");
+                        }
+                    }
+                }
+            }
+        }
+        if let (Some(pk), Some(dl)) = (j.pickups.as_ref().filter(|t| !t.is_empty()), j.deliveries.as_ref().filter(|t| !t.is_empty())) {
+            let demands = pk.iter().chain(dl.iter()).map(|t| t.demand.clone()).collect::<Vec<_>>();
+            let len = demands.iter().flatten().map(|dm| dm.len()).max().unwrap_or(0);
+            if demands.iter().any(|dm| dm.as_ref().is_none_or(|dm| dm.len() != len)) {
+                r.u("E1102");
+            } else {
+                let sum = |ts: &Vec<api::JobTask>| (0..len).map(|k| ts.iter().map(|t| t.demand.as_ref().unwrap()[k] as i64).sum::<i64>()).collect::<Vec<_>>();
+                if sum(pk) != sum(dl) {
+                    r.b("E1102", "jobs");
+                }
+            }
+        }
+    }
+    // ---- E13xx vehicles
+    let type_ids = p.fleet.vehicles.iter().map(|v| v.type_id.as_str()).collect::<Vec<_>>();
+    if type_ids.iter().collect::<HashSet<_>>().len() < type_ids.len() {
+        r.b("E1300", "vehicles");
+    }
+    let mut vid_count = HashMap::<&str, usize>::new();
+    for id in p.fleet.vehicles.iter().flat_map(|v| v.vehicle_ids.iter()) {
+        *vid_count.entry(id.as_str()).or_default() += 1;
+    }
+    if vid_count.values().any(|c| *c > 1) {
+        r.b("E1301", "vehicles");
+    }
+    let resources = p.fleet.resources.iter().flatten().map(|api::VehicleResource::Reload { id, .. }| id.as_str()).collect::<Vec<_>>();
+    if resources.iter().collect::<HashSet<_>>().len() < resources.len() {
+        r.b("E1308", "duplicate-resource");
+    }
+    for v in &p.fleet.vehicles {
+        if v.costs.distance == 0. && v.costs.time == 0. {
+            r.b("E1306", "vehicles");
+        }
+        let n = v.shifts.len();
+        if n == 0 {
+            r.u("E1302"); // code rejects a type without shifts, docs are silent
+        }
+        let mut closed = vec![];
+        for s in &v.shifts {
+            let st = ptime(&s.start.earliest);
+            let en = s.end.as_ref().map(|e| ptime(&e.latest));
+            match (st, en) {
+                (Tm::Bad, _) | (_, Some(Tm::Bad)) => r.b("E1302", format!("shift:malformed:{}", nc(n))),
+                (Tm::At(a), Some(Tm::At(b))) if a > b => r.b("E1302", format!("shift:inverted:{}", nc(n))),
+                (Tm::At(a), Some(Tm::At(b))) => {
+                    if a == b {
+                        r.u("E1302");
+                    }
+                    closed.push((a, b));
+                }
+                (Tm::At(a), None) => {
+                    // how an open-ended shift intersects with others is not documented, unless it starts after all of them
+                    let last = v.shifts.iter().filter(|o| !std::ptr::eq(*o, s)).all(|o| matches!(o.end.as_ref().map(|e| ptime(&e.latest)), Some(Tm::At(b)) if b < a));
+                    if !last {
+                        r.u("E1302");
+                    }
+                }
+                _ => r.u("E1302"),
+            }
+            if let Some(l) = s.start.latest.as_ref() {
+                // start.latest is not mentioned by any rule
+                match (ptime(l), st, en) {
+                    (Tm::At(l), Tm::At(a), en) if l >= a && en.is_none_or(|e| matches!(e, Tm::At(b) if l <= b)) => {}
+                    _ => r.u("E1302"),
+                }
+            }
+            if s.end.as_ref().and_then(|e| e.earliest.as_ref()).is_some_and(|e| !matches!(ptime(e), Tm::At(_))) {
+                r.u("E1302");
+            }
+            let shift_tw = match (st, en) {
+                (Tm::At(a), None) => Some((a, i64::MAX)),
+                (Tm::At(a), Some(Tm::At(b))) if a <= b => Some((a, b)),
+                _ => None,
+            };
+            let inside = |r: &mut Rules, code: &'static str, what: &str, ok: &[(i64, i64)], total: usize| match shift_tw {
+                Some((a, b)) => {
+                    for w in ok {
+                        if w.1 < a || w.0 > b {
+                            r.b(code, format!("{what}:outside-shift:{}", nc(total)));
+                        } else if w.0 < a || w.1 > b {
+                            r.u(code); // docs: "inside vehicle shift", code: intersects
+                        }
+                    }
+                }
+                None if !ok.is_empty() => r.u(code),
+                None => {}
+            };
+            // E1303 / E1307 breaks
+            if let Some(breaks) = &s.breaks {
+                let mut tws = vec![];
+                let (mut offset, mut required) = (false, 0);
+                for br in breaks {
+                    match br {
+                        api::VehicleBreak::Optional { time: api::VehicleOptionalBreakTime::TimeWindow(tw), .. } => tws.push(tw.clone()),
+                        api::VehicleBreak::Optional { time: api::VehicleOptionalBreakTime::TimeOffset(o), .. } => {
+                            offset = true;
+                            if o.len() != 2 || o[0] > o[1] || o[0] < 0. {
+                                r.u("E1303");
+                            }
+                        }
+                        api::VehicleBreak::Required { time, .. } => {
+                            offset |= matches!(time, api::VehicleRequiredBreakTime::OffsetTime { .. });
+                            required += 1;
+                            r.u("E1303"); // required breaks: rule text only describes time windows
+                        }
+                    }
+                }
+                let (broken, unspec, ok) = analyse(&tws, true);
+                for w in broken {
+                    r.b("E1303", format!("break:{w}:{}", nc(tws.len() + required)));
+                }
+                if unspec && !tws.is_empty() {
+                    r.u("E1303");
+                }
+                inside(&mut r, "E1303", "break", &ok, tws.len() + required);
+                if offset {
+                    match s.start.latest.as_ref() {
+                        None => r.b("E1307", "latest-missing"),
+                        Some(l) if *l == s.start.earliest => {}
+                        Some(l) => match (ptime(l), st) {
+                            (Tm::At(l), Tm::At(a)) if l != a => r.b("E1307", "latest-differs"),
+                            _ => r.u("E1307"),
+                        },
+                    }
+                }
+            }
+            // E1304 / E1308 reloads
+            if let Some(reloads) = &s.reloads {
+                let total = reloads.iter().map(|x| x.times.as_ref().map_or(0, |t| t.len())).sum::<usize>();
+                for rl in reloads {
+                    if let Some(tws) = &rl.times {
+                        let (broken, unspec, ok) = analyse(tws, false);
+                        for w in broken {
+                            r.b("E1304", format!("reload:{w}:{}", nc(total)));
+                        }
+                        if unspec {
+                            r.u("E1304");
+                        }
+                        inside(&mut r, "E1304", "reload", &ok, total);
+                    }
+                    if rl.resource_id.as_ref().is_some_and(|id| !resources.contains(&id.as_str())) {
+                        r.b("E1308", "unknown-resource");
+                    }
+                }
+            }
+        }
+        for i in 0..closed.len() {
+            for j in (i + 1)..closed.len() {
+                let (a, b) = (closed[i], closed[j]);
+                if a.0 < b.1 && b.0 < a.1 {
+                    r.b("E1302", format!("shift:intersect:{}", nc(n)));
+                } else if a.0 <= b.1 && b.0 <= a.1 {
+                    r.u("E1302");
+                }
+            }
+        }
+    }
+    reference_relations(d, &mut r, &id_count, &vid_count);
+    reference_routing(d, &mut r);
+    reference_objectives(d, &mut r);
+    r
+}
+
+fn reference_relations(d: &Doc, r: &mut Rules, id_count: &HashMap<&str, usize>, vid_count: &HashMap<&str, usize>) {
+    let p = &d.p;
+    let Some(relations) = p.plan.relations.as_ref() else { return };
+    let job = |id: &str| p.plan.jobs.iter().find(|j| j.id == id);
+    let mut assigned = HashMap::<&str, &str>::new();
+    if p.plan.jobs.iter().any(|j| reserved(&j.id)) {
+        // a plan job carrying a reserved id makes every mention of that id in a relation ambiguous
+        for code in ["E1200", "E1201", "E1202", "E1203", "E1204", "E1205", "E1206", "E1207"] {
+            r.u(code);
+        }
+    }
+    for rel in relations {
+        let real = rel.jobs.iter().filter(|id| !reserved(id)).collect::<Vec<_>>();
+        if real.is_empty() {
+            r.b("E1202", "relations");
+        }
+        let ambiguous_job = real.iter().any(|id| id_count.get(id.as_str()).is_some_and(|c| *c > 1));
+        for id in real.iter() {
+            match job(id) {
+                None => r.b("E1200", "relations"),
+                Some(j) => {
+                    let multi = [&j.pickups, &j.deliveries, &j.replacements, &j.services].iter().flat_map(|t| t.iter().flatten()).any(|t| t.places.len() > 1 || t.places.iter().any(|pl| pl.times.as_ref().is_some_and(|t| t.len() > 1)));
+                    if ambiguous_job {
+                        r.u("E1203"); // which of the jobs sharing the id is meant is not defined
+                    } else if multi && matches!(rel.type_field, api::RelationType::Any) {
+                        r.u("E1203"); // docs: "strict or sequence relation"; code also rejects `any`
+                    } else if multi {
+                        r.b("E1203", "relations");
+                    }
+                    if ambiguous_job {
+                        r.u("E1207");
+                    } else if rel.jobs.iter().filter(|x| x == id).count() != task_count(j) {
+                        r.b("E1207", "relations");
+                    }
+                }
+            }
+            if *assigned.entry(id.as_str()).or_insert(rel.vehicle_id.as_str()) != rel.vehicle_id.as_str() {
+                r.b("E1204", "relations");
+            }
+        }
+        match p.fleet.vehicles.iter().find(|v| v.vehicle_ids.contains(&rel.vehicle_id)) {
+            None => r.b("E1201", "relations"),
+            Some(_) if vid_count.get(rel.vehicle_id.as_str()).is_some_and(|c| *c > 1) => {
+                r.u("E1205");
+                r.u("E1206");
+            }
+            Some(v) => match (rel.shift_index, v.shifts.get(rel.shift_index.unwrap_or(0))) {
+                (Some(_), None) => r.b("E1205", "relations"),
+                (None, None) => r.u("E1205"),
+                (_, Some(s)) => {
+                    let optional = s.breaks.iter().flatten().filter(|b| matches!(b, api::VehicleBreak::Optional { .. })).count();
+                    let count = |id: &str| rel.jobs.iter().filter(|x| *x == id).count();
+                    if (s.breaks.is_some() && count("break") > optional) || s.reloads.as_ref().is_some_and(|x| count("reload") > x.len()) {
+                        r.derived.push("relation.special-id-dangling".to_string());
+                    }
+                    for id in rel.jobs.iter() {
+                        let (missing, empty) = match id.as_str() {
+                            "break" => (s.breaks.is_none(), s.breaks.as_ref().is_some_and(|b| b.is_empty())),
+                            "reload" => (s.reloads.is_none(), s.reloads.as_ref().is_some_and(|b| b.is_empty())),
+                            "arrival" => (s.end.is_none(), false),
+                            _ => (false, false),
+                        };
+                        if missing {
+                            r.b("E1206", id.clone());
+                        } else if empty {
+                            r.u("E1206");
+                        }
+                    }
+                }
+            },
+        }
+    }
+}
+
+fn all_locations(p: &api::Problem) -> Vec<Loc> {
+    let mut pc = p.clone();
+    let mut locs = vec![];
+    for_each_location(&mut pc.plan, &mut pc.fleet.vehicles, &mut |l| locs.push(l.clone()));
+    for s in p.fleet.vehicles.iter().flat_map(|v| v.shifts.iter()) {
+        locs.extend(s.recharges.iter().flat_map(|rc| rc.stations.iter().map(|st| st.location.clone())));
+    }
+    locs
+}
+
+fn reference_routing(d: &Doc, r: &mut Rules) {
+    let p = &d.p;
+    let names = p.fleet.profiles.iter().map(|x| x.name.as_str()).collect::<Vec<_>>();
+    if names.iter().collect::<HashSet<_>>().len() < names.len() {
+        r.b("E1500", "profiles");
+    }
+    if names.is_empty() {
+        r.b("E1501", "profiles");
+    }
+    let clustering = p.plan.clustering.iter().map(|api::Clustering::Vicinity { profile, .. }| ("clustering", profile.matrix.as_str()));
+    for (site, name) in p.fleet.vehicles.iter().map(|v| ("vehicle", v.profile.matrix.as_str())).chain(clustering) {
+        if !names.contains(&name) {
+            r.b("E1505", site);
+        }
+    }
+    let locs = all_locations(p);
+    let indices = locs.iter().filter_map(|l| if let Loc::Reference { index } = l { Some(*index) } else { None }).collect::<BTreeSet<_>>();
+    let geo = locs.iter().filter_map(|l| if let Loc::Coordinate { lat, lng } = l { Some((lat.to_bits(), lng.to_bits())) } else { None }).collect::<BTreeSet<_>>();
+    let (has_idx, has_geo) = (!indices.is_empty(), !geo.is_empty());
+    if has_idx && has_geo {
+        r.b("E1502", "locations");
+    }
+    if has_idx && d.m.is_empty() {
+        r.b("E1503", "matrices");
+    }
+    if !has_idx && !has_geo {
+        r.u("E1504"); // a document without any index/geo location: code compares 1 with the matrix size
+    }
+    if d.m.is_empty() {
+        return;
+    }
+    let sizes = d.m.iter().flat_map(|m| [m.distances.len(), m.travel_times.len()].into_iter().chain(m.error_codes.as_ref().map(|e| e.len()))).collect::<BTreeSet<_>>();
+    let size = (*sizes.iter().next().unwrap() as f64).sqrt().round() as usize;
+    if sizes.len() != 1 || size * size != *sizes.iter().next().unwrap() {
+        r.derived.push("matrix.ragged".to_string());
+    }
+    if (has_idx && has_geo) || sizes.len() != 1 || size * size != *sizes.iter().next().unwrap() {
+        r.u("E1504");
+    } else {
+        let (count, max) = if has_idx { (indices.len(), *indices.iter().next_back().unwrap()) } else { (geo.len(), geo.len().max(1) - 1) };
+        if has_idx && count <= size && max >= size {
+            r.derived.push(format!("matrix.sparse-index:{}", if max < size + 100 { "near" } else { "huge" }));
+        }
+        if count > size {
+            r.b("E1504", "more-locations-than-matrix");
+        } else if max > size {
+            r.b("E1504", "sparse-index");
+        } else if max == size || count < size {
+            r.u("E1504"); // off-by-one wording / matrix larger than needed: code demands equality
+        }
+    }
+}
+
+fn reference_objectives(d: &Doc, r: &mut Rules) {
+    let p = &d.p;
+    let values = p.plan.jobs.iter().filter_map(|j| j.value).collect::<Vec<_>>();
+    let orders = p.plan.jobs.iter().flat_map(|j| j.all_tasks_iter()).filter_map(|t| t.order).collect::<Vec<_>>();
+    let non_positive = values.iter().any(|v| *v < 1.) || orders.iter().any(|o| *o < 1);
+    let Some(objs) = p.objectives.as_ref() else {
+        if non_positive {
+            r.u("E1605"); // rule text is unconditional, section header scopes E16xx to the `objectives` property
+        }
+        return;
+    };
+    if non_positive {
+        r.b("E1605", "jobs");
+    }
+    if objs.is_empty() {
+        r.b("E1600", "objectives");
+    }
+    let nested = objs.iter().flat_map(|o| if let Obj::MultiObjective { objectives, .. } = o { objectives.clone() } else { vec![] }).collect::<Vec<_>>();
+    let tag = |o: &Obj| std::mem::discriminant(o);
+    let top = objs.iter().filter(|o| !matches!(o, Obj::MultiObjective { .. })).collect::<Vec<_>>();
+    if top.iter().map(|o| tag(o)).collect::<HashSet<_>>().len() < top.len() {
+        r.b("E1601", "objectives");
+    } else if top.iter().map(|o| tag(o)).chain(nested.iter().map(tag)).collect::<HashSet<_>>().len() < top.len() + nested.len() {
+        r.u("E1601");
+    }
+    if !objs.iter().chain(nested.iter()).any(is_cost) {
+        r.b("E1602", "objectives");
+    }
+    let top_cost = objs.iter().filter(|o| is_cost(o)).count();
+    if top_cost > 1 {
+        r.b("E1606", "objectives");
+    } else if top_cost + nested.iter().filter(|o| is_cost(o)).count() > 1 {
+        r.u("E1606");
+    }
+    let is_value = |o: &Obj| matches!(o, Obj::MaximizeValue { .. });
+    let (top_value, nested_value) = (objs.iter().any(is_value), nested.iter().any(is_value));
+    if !values.iter().any(|v| *v > 0.) {
+        if top_value && values.iter().all(|v| *v == 0.) {
+            r.b("E1603", "objectives");
+        } else if top_value || nested_value {
+            r.u("E1603");
+        }
+    } else if !top_value {
+        if nested_value || objs.is_empty() { r.u("E1607") } else { r.b("E1607", "objectives") }
+    }
+    if !values.is_empty() && !values.iter().any(|v| *v > 0.) && !top_value {
+        r.u("E1607"); // "jobs with value set" vs code's value > 0
+    }
+    let (top_order, nested_order) = (objs.iter().any(|o| matches!(o, Obj::TourOrder)), nested.iter().any(|o| matches!(o, Obj::TourOrder)));
+    if !orders.iter().any(|o| *o > 0) {
+        if top_order && orders.iter().all(|o| *o == 0) {
+            r.b("E1604", "objectives");
+        } else if top_order || nested_order {
+            r.u("E1604");
+        }
+    }
+}
+
+// ---------------------------------------------------------------------------------------------
+// fault catalogue
+// ---------------------------------------------------------------------------------------------
+
+const FAMILIES: [&str; 50] = [
+    "job.duplicate-id", "job.demand-missing", "job.service-demand", "job.unbalanced", "job.reserved-id", "job.empty", "job.negative-duration", "job.negative-demand",
+    "tw.malformed", "tw.inverted", "tw.intersect", "tw.arity", "tw.outside-shift",
+    "vehicle.duplicate-type-id", "vehicle.duplicate-id", "vehicle.zero-costs", "break.offset-rescheduling", "reload.resource",
+    "relation.valid", "relation.unknown-job", "relation.unknown-vehicle", "relation.empty", "relation.multi-place-job", "relation.two-vehicles", "relation.bad-shift-index", "relation.special-id-undefined", "relation.incomplete-job", "relation.special-id-dangling",
+    "profile.duplicate", "profile.empty", "profile.unknown", "location.mixed", "matrix.none", "matrix.too-small", "matrix.too-large", "matrix.sparse-index", "matrix.ragged", "matrix.profile-mix",
+    "objective.empty", "objective.duplicate", "objective.no-cost", "objective.value-redundant", "objective.order-redundant", "objective.non-positive", "objective.multi-cost", "objective.value-missing", "objective.exotic", "objective.nested",
+    "misc.vector", "misc.scalar",
+];
+const MISC_MORE: [&str; 6] = ["misc.empty-collection", "misc.break-offset", "misc.required-break", "misc.shift-time", "misc.recharge", "misc.custom-location"];
+
+fn tt(v: i64) -> String {
+    fmt_time(T0 + v)
+}
+
+/// n disjoint windows [base + k*step, base + k*step + len] (relative to T0).
+fn windows(n: usize, base: i64, step: i64, len: i64) -> Vec<Vec<String>> {
+    (0..n as i64).map(|k| vec![tt(base + k * step), tt(base + k * step + len)]).collect()
+}
+
+/// Breaks window `w` of a list produced by `windows` (needs len >= 10, step >= 2*len).
+fn corrupt(what: &str, tws: &mut [Vec<String>], w: usize, base: i64, step: i64, len: i64, sel: usize) {
+    match what {
+        "malformed" => tws[w][sel % 2] = MALFORMED[(sel / 2) % MALFORMED.len()].to_string(),
+        "inverted" => tws[w].swap(0, 1),
+        "arity" => match sel % 3 {
+            0 => tws[w].truncate(1),
+            1 => tws[w].push(tt(base + w as i64 * step + len + 1)),
+            _ => tws[w].clear(),
+        },
+        "intersect" if w > 0 => tws[w] = vec![tt(base + (w as i64 - 1) * step + len / 5), tt(base + (w as i64 - 1) * step + len + len / 5)],
+        "intersect" => tws[w] = vec![tt(base + step - len / 2), tt(base + step + len / 5)],
+        _ => {}
+    }
+}
+
+fn task_lists(j: &mut api::Job) -> [(&'static str, &mut Option<Vec<api::JobTask>>); 4] {
+    [("pickups", &mut j.pickups), ("deliveries", &mut j.deliveries), ("replacements", &mut j.replacements), ("services", &mut j.services)]
+}
+
+fn any_location(p: &api::Problem) -> Option<Loc> {
+    p.fleet.vehicles.iter().flat_map(|v| v.shifts.iter()).map(|s| s.start.location.clone()).next().or_else(|| all_locations(p).into_iter().next())
+}
+
+fn dims(p: &api::Problem) -> usize {
+    p.fleet.vehicles.first().map_or(1, |v| v.capacity.len().clamp(1, 8))
+}
+
+/// Shift bounds relative to T0 (end of an open shift: start + 100000).
+fn shift_span(s: &api::VehicleShift) -> Option<(i64, i64, bool)> {
+    let Tm::At(a) = ptime(&s.start.earliest) else { return None };
+    let b = match s.end.as_ref().map(|e| ptime(&e.latest)) {
+        None => a + 100_000,
+        Some(Tm::At(b)) => b,
+        _ => return None,
+    };
+    (b - a >= 100).then_some((a - T0, b - T0, s.end.is_some()))
+}
+
+fn window_break(tw: Vec<String>) -> api::VehicleBreak {
+    api::VehicleBreak::Optional { time: api::VehicleOptionalBreakTime::TimeWindow(tw), places: vec![api::VehicleOptionalBreakPlace { duration: 10., location: None, tag: None }], policy: None }
+}
+
+fn pick_shift(d: &mut Doc, sel: usize) -> Option<(usize, usize, &mut api::VehicleShift)> {
+    let all = d.p.fleet.vehicles.iter().enumerate().flat_map(|(vi, v)| (0..v.shifts.len()).map(move |si| (vi, si))).collect::<Vec<_>>();
+    let (vi, si) = *all.get(sel % all.len().max(1))?;
+    Some((vi, si, &mut d.p.fleet.vehicles[vi].shifts[si]))
+}
+
+fn valid_objectives(p: &api::Problem) -> Vec<Obj> {
+    let mut o = vec![Obj::MinimizeUnassigned { breaks: None }, Obj::MinimizeTours, Obj::MinimizeCost];
+    if p.plan.jobs.iter().any(|j| j.value.is_some_and(|v| v > 0.)) {
+        o.insert(0, Obj::MaximizeValue { breaks: None });
+    }
+    o
+}
+
+fn apply(d: &mut Doc, f: &FaultSel) -> Option<Applied> {
+    let (a, b, c) = (f.a as usize, f.b as usize, f.c as usize);
+    let (nj, nv) = (d.p.plan.jobs.len(), d.p.fleet.vehicles.len());
+    let kind = f.kind.as_str();
+    let done = |detail: &str, not_first: bool, allow: &'static [&'static str]| Some(Applied { label: if detail.is_empty() { kind.to_string() } else { format!("{kind}:{detail}") }, not_first, allow });
+    // index of a job having a task with demand (pickup/delivery/replacement)
+    let demand_job = |d: &Doc, sel: usize| {
+        let v = d.p.plan.jobs.iter().enumerate().filter(|(_, j)| j.pickups.iter().chain(j.deliveries.iter()).chain(j.replacements.iter()).any(|t| !t.is_empty())).map(|(i, _)| i).collect::<Vec<_>>();
+        v.get(sel % v.len().max(1)).copied()
+    };
+    match kind {
+        // ---------------- jobs
+        "job.duplicate-id" => {
+            if nj == 0 {
+                return None;
+            }
+            if nj == 1 {
+                let j = d.p.plan.jobs[0].clone();
+                d.p.plan.jobs.push(j);
+            }
+            let k = 1 + a % (d.p.plan.jobs.len() - 1);
+            d.p.plan.jobs[k].id = d.p.plan.jobs[b % k].id.clone();
+            done("", true, &[])
+        }
+        "job.demand-missing" | "job.negative-demand" => {
+            let ji = demand_job(d, a)?;
+            let mut lists = task_lists(&mut d.p.plan.jobs[ji]);
+            let mut tasks = lists[..3].iter_mut().flat_map(|(k, t)| t.iter_mut().flatten().map(move |t| (*k, t))).collect::<Vec<_>>();
+            let ti = b % tasks.len();
+            let (site, task) = &mut tasks[ti];
+            if kind == "job.demand-missing" {
+                task.demand = None;
+            } else {
+                let dm = task.demand.get_or_insert_with(|| vec![1]);
+                if dm.is_empty() {
+                    dm.push(1);
+                }
+                let k = c % dm.len();
+                dm[k] = -1 - (c % 7) as i32;
+            }
+            done(site, ji > 0 || ti > 0, &[])
+        }
+        "job.service-demand" => {
+            let place = api::JobPlace { location: any_location(&d.p)?, duration: 1., times: None, tag: None };
+            let dm = vec![1; dims(&d.p)];
+            let j = d.p.plan.jobs.get_mut(a % nj.max(1))?;
+            j.services.get_or_insert_with(Vec::new).push(api::JobTask { places: vec![place], demand: Some(dm), order: None });
+            done("", a % nj > 0 || j.services.as_ref().unwrap().len() > 1, &[])
+        }
+        "job.unbalanced" => {
+            let place = api::JobPlace { location: any_location(&d.p)?, duration: 1., times: None, tag: None };
+            let dm = vec![2; dims(&d.p)];
+            let j = d.p.plan.jobs.get_mut(a % nj.max(1))?;
+            if !(j.pickups.as_ref().is_some_and(|t| !t.is_empty()) && j.deliveries.as_ref().is_some_and(|t| !t.is_empty())) {
+                let task = api::JobTask { places: vec![place], demand: Some(dm), order: None };
+                (j.pickups, j.deliveries, j.replacements, j.services) = (Some(vec![task.clone()]), Some(vec![task]), None, None);
+            }
+            let dl = j.deliveries.as_mut().unwrap().last_mut().unwrap();
+            let dm = dl.demand.get_or_insert_with(|| vec![0]);
+            if dm.is_empty() {
+                dm.push(0);
+            }
+            let k = b % dm.len();
+            dm[k] += 1 + (c % 3) as i32;
+            done("", a % nj > 0 || k > 0, &[])
+        }
+        "job.reserved-id" => {
+            d.p.plan.jobs.get_mut(a % nj.max(1))?.id = ["departure", "arrival", "break", "reload"][b % 4].to_string();
+            done("", a % nj > 0, &[])
+        }
+        "job.empty" => {
+            let j = d.p.plan.jobs.get_mut(a % nj.max(1))?;
+            (j.pickups, j.deliveries, j.replacements, j.services) = ((b & 1 > 0).then(Vec::new), (b & 2 > 0).then(Vec::new), (b & 4 > 0).then(Vec::new), (b & 8 > 0).then(Vec::new));
+            done("", a % nj > 0, &[])
+        }
+        "job.negative-duration" => {
+            let ji = a % nj.max(1);
+            let mut lists = task_lists(d.p.plan.jobs.get_mut(ji)?);
+            let mut places = lists.iter_mut().flat_map(|(k, t)| { let k: &'static str = *k; t.iter_mut().flatten().flat_map(move |t| t.places.iter_mut().map(move |p| (k, p))) }).collect::<Vec<_>>();
+            let pi = b % places.len().max(1);
+            let (site, place) = places.get_mut(pi)?;
+            place.duration = [-1., -0.5, -1e300, -30.][c % 4];
+            done(site, ji > 0 || pi > 0, &[])
+        }
+        // ---------------- time windows at every site
+        "tw.malformed" | "tw.inverted" | "tw.intersect" | "tw.arity" | "tw.outside-shift" => {
+            let what = &kind[3..];
+            let site = match what {
+                "outside-shift" => 5 + a % 2,
+                "arity" => [0, 1, 2, 3, 5, 6][a % 6],
+                _ => a % 7,
+            };
+            let mut n = [1, 2, 3, 3, 4][c % 5];
+            if what == "intersect" {
+                n = n.max(2);
+            }
+            let w = b % n;
+            let sel = c / 5;
+            match site {
+                0..=3 => {
+                    let site_name = ["pickups", "deliveries", "replacements", "services"][site];
+                    let mut tws = windows(n, 0, 1000, 500);
+                    corrupt(what, &mut tws, w, 0, 1000, 500, a / 7);
+                    let ji = sel % nj.max(1);
+                    // keep the job's own location so that the set of used locations does not shrink
+                    let location = d.p.plan.jobs.get(ji)?.all_tasks_iter().flat_map(|t| t.places.iter()).map(|p| p.location.clone()).next().or_else(|| any_location(&d.p))?;
+                    let place = api::JobPlace { location, duration: 1., times: Some(tws), tag: None };
+                    let task = api::JobTask { places: vec![place], demand: (site != 3).then(|| vec![1; dims(&d.p)]), order: None };
+                    let j = d.p.plan.jobs.get_mut(ji)?;
+                    (j.pickups, j.deliveries, j.replacements, j.services) = (None, None, None, None);
+                    *task_lists(j)[site].1 = Some(vec![task]);
+                    done(&format!("{site_name}:{}", nc(n)), w > 0 || ji > 0, &[])
+                }
+                4 => {
+                    let vi = sel % nv.max(1);
+                    let v = d.p.fleet.vehicles.get_mut(vi)?;
+                    let mut template = v.shifts.first()?.clone();
+                    (template.breaks, template.reloads, template.recharges, template.start.latest) = (None, None, None, None);
+                    let mut tws = windows(n, 0, 100_000, 20_000);
+                    corrupt(what, &mut tws, w, 0, 100_000, 20_000, a / 7);
+                    v.shifts = tws
+                        .into_iter()
+                        .map(|tw| {
+                            let mut s = template.clone();
+                            s.start.earliest = tw[0].clone();
+                            s.end = Some(api::ShiftEnd { earliest: None, latest: tw[1].clone(), location: template.end.as_ref().map_or(s.start.location.clone(), |e| e.location.clone()) });
+                            s
+                        })
+                        .collect();
+                    done(&format!("shift:{}", nc(n)), w > 0 || vi > 0, &[])
+                }
+                _ => {
+                    let (vi, si, shift) = pick_shift(d, sel)?;
+                    let (s0, s1, closed) = shift_span(shift)?;
+                    let step = (s1 - s0) / (n as i64 + 1);
+                    let (base, len) = (s0 + step / 4, step / 2);
+                    let mut tws = windows(n, base, step, len);
+                    corrupt(what, &mut tws, w, base, step, len, a / 7);
+                    if what == "outside-shift" {
+                        tws[w] = if closed { vec![tt(s1 + 1000), tt(s1 + 1500)] } else { vec![tt(s0 - 2000), tt(s0 - 1500)] };
+                    }
+                    if site == 5 {
+                        shift.breaks = Some(tws.into_iter().map(window_break).collect());
+                    } else {
+                        let reload = |times: Vec<Vec<String>>| api::VehicleReload { location: shift.start.location.clone(), duration: 5., times: Some(times), tag: None, resource_id: None };
+                        shift.reloads = Some(if (a / 7) % 2 == 0 { tws.into_iter().map(|tw| reload(vec![tw])).collect() } else { vec![reload(tws)] });
+                    }
+                    done(&format!("{}:{}", if site == 5 { "break" } else { "reload" }, nc(n)), w > 0 || vi > 0 || si > 0, &[])
+                }
+            }
+        }
+        // ---------------- vehicles
+        "vehicle.duplicate-type-id" => {
+            if nv == 0 {
+                return None;
+            }
+            if nv == 1 {
+                let mut v = d.p.fleet.vehicles[0].clone();
+                v.vehicle_ids = v.vehicle_ids.iter().map(|id| format!("{id}_copy")).collect();
+                d.p.fleet.vehicles.push(v);
+            }
+            let k = 1 + a % (d.p.fleet.vehicles.len().max(2) - 1);
+            d.p.fleet.vehicles.get_mut(k)?.type_id = d.p.fleet.vehicles[b % k].type_id.clone();
+            done("", true, &[])
+        }
+        "vehicle.duplicate-id" => {
+            let ids = d.p.fleet.vehicles.iter().flat_map(|v| v.vehicle_ids.iter().cloned()).collect::<Vec<_>>();
+            let id = ids.get(a % ids.len().max(1))?.clone();
+            let vi = b % nv;
+            d.p.fleet.vehicles[vi].vehicle_ids.push(id);
+            done("", true, &[])
+        }
+        "vehicle.zero-costs" => {
+            let v = d.p.fleet.vehicles.get_mut(a % nv.max(1))?;
+            (v.costs.distance, v.costs.time) = (0., 0.);
+            done("", a % nv > 0, &[])
+        }
+        "break.offset-rescheduling" => {
+            let (vi, si, shift) = pick_shift(d, a)?;
+            let (s0, _, _) = shift_span(shift)?;
+            shift.start.latest = [None, Some(tt(s0 + 50)), Some(tt(s0 + 1))][b % 3].clone();
+            let br = if c % 2 == 0 {
+                api::VehicleBreak::Optional { time: api::VehicleOptionalBreakTime::TimeOffset(vec![10., 60.]), places: vec![api::VehicleOptionalBreakPlace { duration: 10., location: None, tag: None }], policy: None }
+            } else {
+                api::VehicleBreak::Required { time: api::VehicleRequiredBreakTime::OffsetTime { earliest: 10., latest: 60. }, duration: 10. }
+            };
+            shift.breaks.get_or_insert_with(Vec::new).push(br);
+            done(if c % 2 == 0 { "optional" } else { "required" }, vi > 0 || si > 0, &[])
+        }
+        "reload.resource" => {
+            if a % 2 == 0 {
+                let res = d.p.fleet.resources.get_or_insert_with(Vec::new);
+                if res.is_empty() {
+                    res.push(api::VehicleResource::Reload { id: "resX".into(), capacity: vec![5] });
+                }
+                let copy = res[b % res.len()].clone();
+                res.push(copy);
+                done("duplicate", true, &[])
+            } else {
+                let (vi, si, shift) = pick_shift(d, b)?;
+                let location = shift.start.location.clone();
+                let reloads = shift.reloads.get_or_insert_with(Vec::new);
+                if reloads.is_empty() {
+                    reloads.push(api::VehicleReload { location, duration: 5., times: None, tag: None, resource_id: None });
+                }
+                let k = c % reloads.len();
+                reloads[k].resource_id = Some("ghost_resource".into());
+                done("unknown", vi > 0 || si > 0 || k > 0, &[])
+            }
+        }
+        _ => apply_more(d, f),
+    }
+}
+
+/// A relation valid by the documented rules: known vehicle/shift, simple jobs listed once per task.
+fn valid_relation(p: &api::Problem, a: usize, b: usize, c: usize) -> Option<api::Relation> {
+    let simple = p.plan.jobs.iter().filter(|j| !reserved(&j.id) && task_count(j) > 0 && p.plan.jobs.iter().filter(|x| x.id == j.id).count() == 1).filter(|j| j.all_tasks_iter().all(|t| t.places.len() == 1 && t.places[0].times.as_ref().is_none_or(|t| t.len() <= 1))).collect::<Vec<_>>();
+    let vehicles = p.fleet.vehicles.iter().filter(|v| !v.shifts.is_empty()).flat_map(|v| v.vehicle_ids.iter().map(move |id| (id, v.shifts.len()))).collect::<Vec<_>>();
+    let (vehicle_id, shifts) = *vehicles.get(b % vehicles.len().max(1))?;
+    if simple.is_empty() {
+        return None;
+    }
+    let mut jobs = vec![];
+    for k in 0..(1 + c % 3).min(simple.len()) {
+        let j = simple[(c / 3 + k) % simple.len()];
+        if !jobs.contains(&j.id) {
+            jobs.extend(std::iter::repeat_n(j.id.clone(), task_count(j)));
+        }
+    }
+    if (c / 16) % 4 == 0 {
+        jobs.insert(0, "departure".to_string());
+    }
+    let type_field = [api::RelationType::Any, api::RelationType::Sequence, api::RelationType::Strict][a % 3].clone();
+    Some(api::Relation { type_field, jobs, vehicle_id: vehicle_id.clone(), shift_index: ((b / 8) % 2 == 0).then_some((b / 16) % shifts) })
+}
+
+fn apply_more(d: &mut Doc, f: &FaultSel) -> Option<Applied> {
+    let (a, b, c) = (f.a as usize, f.b as usize, f.c as usize);
+    let (nj, nv) = (d.p.plan.jobs.len(), d.p.fleet.vehicles.len());
+    let kind = f.kind.as_str();
+    let done = |detail: &str, not_first: bool, allow: &'static [&'static str]| Some(Applied { label: if detail.is_empty() { kind.to_string() } else { format!("{kind}:{detail}") }, not_first, allow });
+    if kind.starts_with("relation.") {
+        let mut rel = valid_relation(&d.p, a, b, c)?;
+        let first_real = rel.jobs.iter().position(|id| !reserved(id))?;
+        let shift_of = |d: &mut Doc, rel: &api::Relation| -> Option<(usize, usize)> {
+            let vi = d.p.fleet.vehicles.iter().position(|v| v.vehicle_ids.contains(&rel.vehicle_id))?;
+            Some((vi, rel.shift_index.unwrap_or(0)))
+        };
+        let mut detail = String::new();
+        match kind {
+            "relation.valid" => {}
+            "relation.unknown-job" => rel.jobs.insert(1 + a % rel.jobs.len(), "ghost_job".into()),
+            "relation.unknown-vehicle" => rel.vehicle_id = "ghost_vehicle".into(),
+            "relation.empty" => rel.jobs = [vec![], vec!["departure".to_string()], vec!["departure".to_string(), "arrival".to_string()]][(a / 3) % 3].clone(),
+            "relation.multi-place-job" => {
+                let id = rel.jobs[first_real].clone();
+                let j = d.p.plan.jobs.iter_mut().find(|j| j.id == id)?;
+                let mut lists = task_lists(j);
+                let task = lists.iter_mut().flat_map(|(_, t)| t.iter_mut().flatten()).next()?;
+                if (a / 3) % 2 == 0 {
+                    let copy = task.places[0].clone();
+                    task.places.push(copy);
+                } else {
+                    task.places[0].times = Some(windows(2, 0, 1000, 500));
+                }
+                detail = format!("{:?}", rel.type_field).to_lowercase();
+            }
+            "relation.two-vehicles" => {
+                let other = d.p.fleet.vehicles.iter().filter(|v| !v.shifts.is_empty()).flat_map(|v| v.vehicle_ids.iter()).find(|id| **id != rel.vehicle_id).cloned();
+                let other = other.unwrap_or_else(|| {
+                    let vi = d.p.fleet.vehicles.iter().position(|v| v.vehicle_ids.contains(&rel.vehicle_id)).unwrap_or(0);
+                    d.p.fleet.vehicles[vi].vehicle_ids.push("extra_vehicle".into());
+                    "extra_vehicle".into()
+                });
+                let mut second = rel.clone();
+                (second.vehicle_id, second.shift_index) = (other, None);
+                d.p.plan.relations.get_or_insert_with(Vec::new).push(rel.clone());
+                rel = second;
+            }
+            "relation.bad-shift-index" => {
+                let (vi, _) = shift_of(d, &rel)?;
+                rel.shift_index = Some(d.p.fleet.vehicles[vi].shifts.len() + (a / 3) % 3);
+            }
+            "relation.special-id-undefined" => {
+                let (vi, si) = shift_of(d, &rel)?;
+                let s = d.p.fleet.vehicles[vi].shifts.get_mut(si)?;
+                let special = ["break", "reload", "arrival"][(a / 3) % 3];
+                match special {
+                    "break" => s.breaks = None,
+                    "reload" => s.reloads = None,
+                    _ => s.end = None,
+                }
+                rel.jobs.push(special.to_string());
+                detail = special.to_string();
+            }
+            "relation.incomplete-job" => {
+                let id = rel.jobs[first_real].clone();
+                if (a / 3) % 2 == 0 && rel.jobs.iter().filter(|x| **x == id).count() > 1 {
+                    rel.jobs.remove(first_real);
+                } else {
+                    rel.jobs.push(id);
+                }
+            }
+            _ => {
+                // special ids whose shift property exists but does not provide (enough) conditional jobs
+                let (vi, si) = shift_of(d, &rel)?;
+                let s = d.p.fleet.vehicles[vi].shifts.get_mut(si)?;
+                let (s0, s1, _) = shift_span(s)?;
+                detail = ["empty-breaks", "empty-reloads", "more-ids-than-breaks", "required-break-only"][(a / 3) % 4].to_string();
+                match (a / 3) % 4 {
+                    0 => s.breaks = Some(vec![]),
+                    1 => s.reloads = Some(vec![]),
+                    2 => s.breaks = Some(vec![window_break(vec![tt(s0 + 10), tt((s0 + s1) / 2)])]),
+                    _ => {
+                        s.start.latest = Some(s.start.earliest.clone());
+                        s.breaks = Some(vec![api::VehicleBreak::Required { time: api::VehicleRequiredBreakTime::OffsetTime { earliest: 10., latest: 20. }, duration: 5. }]);
+                    }
+                }
+                let special = if (a / 3) % 4 == 1 { "reload" } else { "break" };
+                rel.jobs.extend(std::iter::repeat_n(special.to_string(), if (a / 3) % 4 == 2 { 2 } else { 1 }));
+            }
+        }
+        let rels = d.p.plan.relations.get_or_insert_with(Vec::new);
+        rels.push(rel);
+        return done(&detail, rels.len() > 1 || first_real > 0, &[]);
+    }
+    match kind {
+        // ---------------- routing
+        "profile.duplicate" => {
+            let copy = d.p.fleet.profiles.get(a % d.p.fleet.profiles.len().max(1))?.clone();
+            d.p.fleet.profiles.push(copy);
+            done("", true, &[])
+        }
+        "profile.empty" => {
+            d.p.fleet.profiles.clear();
+            done("", false, &[])
+        }
+        "profile.unknown" => {
+            if a % 3 == 0 {
+                let matrix = if b % 2 == 0 { "ghost_profile".to_string() } else { d.p.fleet.profiles.first()?.name.clone() };
+                d.p.plan.clustering = Some(api::Clustering::Vicinity {
+                    profile: api::VehicleProfile { matrix, scale: None },
+                    threshold: api::VicinityThresholdPolicy { duration: 10., distance: 10., min_shared_time: None, smallest_time_window: None, max_jobs_per_cluster: Some(2) },
+                    visiting: api::VicinityVisitPolicy::Continue,
+                    serving: api::VicinityServingPolicy::Original { parking: 0. },
+                    filtering: None,
+                });
+                done(if b % 2 == 0 { "clustering" } else { "clustering-known" }, true, &["E0000"])
+            } else {
+                d.p.fleet.vehicles.get_mut(b % nv.max(1))?.profile.matrix = "ghost_profile".into();
+                done("vehicle", b % nv > 0, &[])
+            }
+        }
+        "location.mixed" => {
+            let other = if d.approx { Loc::Reference { index: 0 } } else { Loc::Coordinate { lat: 52.5, lng: 13.4 } };
+            let total = all_locations(&d.p).len();
+            let (mut k, target) = (0, a % total.max(1));
+            for_each_location(&mut d.p.plan, &mut d.p.fleet.vehicles, &mut |l| {
+                if k == target {
+                    *l = other.clone();
+                }
+                k += 1;
+            });
+            done("", target > 0, &["E0002"])
+        }
+        "matrix.none" | "matrix.too-small" | "matrix.too-large" | "matrix.sparse-index" | "matrix.ragged" | "matrix.profile-mix" if d.approx || d.m.is_empty() => None,
+        "matrix.none" => {
+            d.m.clear();
+            done("", false, &[])
+        }
+        "matrix.too-small" | "matrix.too-large" => {
+            let n = (d.m[0].distances.len() as f64).sqrt().round() as usize;
+            let m = if kind == "matrix.too-small" { n.checked_sub(1 + (a % 2).min(n.saturating_sub(1)))? } else { n + 1 + a % 2 };
+            let resize = |v: &Vec<i64>| (0..m * m).map(|k| if k / m < n && k % m < n { v.get((k / m) * n + k % m).copied().unwrap_or(7) } else { 7 }).collect::<Vec<_>>();
+            for mx in d.m.iter_mut() {
+                (mx.distances, mx.travel_times, mx.error_codes) = (resize(&mx.distances), resize(&mx.travel_times), mx.error_codes.as_ref().map(|e| resize(e).iter().map(|x| (*x == 1) as i64).collect()));
+            }
+            done("", false, &[])
+        }
+        "matrix.sparse-index" => {
+            let n = (d.m[0].distances.len() as f64).sqrt().round() as usize;
+            let index = n + [1, 2, 7, 1 << 20, 1 << 40][b % 5];
+            let total = all_locations(&d.p).len();
+            let (mut k, target) = (0, a % total.max(1));
+            for_each_location(&mut d.p.plan, &mut d.p.fleet.vehicles, &mut |l| {
+                if k == target {
+                    *l = Loc::Reference { index };
+                }
+                k += 1;
+            });
+            done(if b % 5 < 3 { "near" } else { "huge" }, target > 0, &[])
+        }
+        "matrix.ragged" => {
+            let k = a % d.m.len();
+            match b % 4 {
+                0 => d.m[k].travel_times.push(1),
+                1 => {
+                    d.m[k].distances.pop();
+                    d.m[k].travel_times.pop();
+                }
+                2 => d.m[k].error_codes = Some(vec![0; d.m[k].distances.len() / 2 + 1]),
+                _ => d.m[k].error_codes = Some(vec![1; d.m[k].distances.len() + 3]),
+            }
+            done(["times-longer", "non-square", "codes-shorter", "codes-longer"][b % 4], k > 0, &["E0002"])
+        }
+        "matrix.profile-mix" => {
+            let k = a % d.m.len();
+            match b % 4 {
+                0 => d.m[k].profile = None,
+                1 => d.m[k].profile = Some("ghost_profile".into()),
+                2 => d.m[k].timestamp = Some(tt(0)),
+                _ => d.m[k].timestamp = Some(MALFORMED[c % MALFORMED.len()].into()),
+            }
+            done(["no-profile", "unknown-profile", "timestamp", "timestamp-malformed"][b % 4], k > 0, &["E0002"])
+        }
+        // ---------------- objectives
+        "objective.empty" => {
+            d.p.objectives = Some(vec![]);
+            done("", false, &[])
+        }
+        "objective.duplicate" | "objective.multi-cost" | "objective.exotic" | "objective.nested" | "objective.order-redundant" => {
+            let mut o = valid_objectives(&d.p);
+            let extra = match kind {
+                "objective.duplicate" => o[a % o.len()].clone(),
+                "objective.multi-cost" => [Obj::MinimizeDistance, Obj::MinimizeDuration][a % 2].clone(),
+                "objective.order-redundant" => {
+                    for j in d.p.plan.jobs.iter_mut() {
+                        task_lists(j).iter_mut().flat_map(|(_, t)| t.iter_mut().flatten()).for_each(|t| t.order = None);
+                    }
+                    Obj::TourOrder
+                }
+                "objective.exotic" => [
+                    Obj::MaximizeTours,
+                    Obj::MinimizeArrivalTime,
+                    Obj::BalanceMaxLoad,
+                    Obj::BalanceActivities,
+                    Obj::BalanceDistance,
+                    Obj::BalanceDuration,
+                    Obj::FastService,
+                    Obj::CompactTour { job_radius: [0, 1, 3, 1000][c % 4] },
+                    Obj::HierarchicalAreas { levels: c % 4 },
+                ][a % 9]
+                    .clone(),
+                _ => {
+                    let inner = vec![o.pop().unwrap(), Obj::MinimizeTours];
+                    let multi = |objectives: Vec<Obj>, k: usize| Obj::MultiObjective { strategy: [api::MultiStrategy::Sum, api::MultiStrategy::WeightedSum { weights: vec![1.; objectives.len()] }, api::MultiStrategy::WeightedSum { weights: vec![1.] }][k % 3].clone(), objectives };
+                    match a % 3 {
+                        0 => multi(inner, c),
+                        1 => {
+                            o.push(Obj::MinimizeCost);
+                            multi(inner, c)
+                        }
+                        _ => multi(vec![multi(inner, 0), Obj::MinimizeArrivalTime], c),
+                    }
+                }
+            };
+            let pos = b % (o.len() + 1);
+            o.insert(pos, extra);
+            d.p.objectives = Some(o);
+            done(&if kind == "objective.exotic" { format!("{}", a % 9) } else if kind == "objective.nested" { format!("{}", a % 3) } else { String::new() }, pos > 0, if matches!(kind, "objective.exotic" | "objective.nested") { &["E0000"] } else { &[] })
+        }
+        "objective.no-cost" => {
+            let mut o = valid_objectives(&d.p);
+            o.retain(|x| !is_cost(x));
+            d.p.objectives = Some(o);
+            done("", true, &[])
+        }
+        "objective.value-redundant" => {
+            d.p.plan.jobs.iter_mut().for_each(|j| j.value = None);
+            let mut o = valid_objectives(&d.p);
+            o.insert(a % (o.len() + 1), Obj::MaximizeValue { breaks: None });
+            d.p.objectives = Some(o);
+            done("", a % 4 > 0, &[])
+        }
+        "objective.non-positive" => {
+            let ji = a % nj.max(1);
+            let j = d.p.plan.jobs.get_mut(ji)?;
+            match b % 4 {
+                3 => task_lists(j).iter_mut().flat_map(|(_, t)| t.iter_mut().flatten()).next()?.order = Some([0, -2][c % 2]),
+                k => j.value = Some([0., 0.5, -3.][k]),
+            }
+            if (b / 4) % 4 != 0 {
+                d.p.objectives = Some(valid_objectives(&d.p));
+            }
+            done(["value-zero", "value-fraction", "value-negative", "order"][b % 4], ji > 0, &[])
+        }
+        "objective.value-missing" => {
+            d.p.plan.jobs.get_mut(a % nj.max(1))?.value = Some(5.);
+            d.p.objectives = Some(vec![Obj::MinimizeUnassigned { breaks: None }, Obj::MinimizeTours, Obj::MinimizeCost]);
+            done("", a % nj > 0, &[])
+        }
+        _ => apply_misc(d, f),
+    }
+}
+
+/// Schema-shaped values in fields no documented rule mentions (totality; acceptance where no rule is broken).
+fn apply_misc(d: &mut Doc, f: &FaultSel) -> Option<Applied> {
+    let (a, b, c) = (f.a as usize, f.b as usize, f.c as usize);
+    let (nj, nv) = (d.p.plan.jobs.len(), d.p.fleet.vehicles.len());
+    let kind = f.kind.as_str();
+    let done = |detail: &str, not_first: bool, allow: &'static [&'static str]| Some(Applied { label: format!("{kind}:{detail}"), not_first, allow });
+    let offset_break = |time: Vec<f64>| api::VehicleBreak::Optional { time: api::VehicleOptionalBreakTime::TimeOffset(time), places: vec![api::VehicleOptionalBreakPlace { duration: 10., location: None, tag: None }], policy: None };
+    match kind {
+        "misc.vector" => {
+            if a % 2 == 0 {
+                let vi = b % nv.max(1);
+                d.p.fleet.vehicles.get_mut(vi)?.capacity = [vec![], vec![i32::MAX / 4], vec![-5], vec![1; 9], vec![0]][c % 5].clone();
+                done(["capacity-empty", "capacity-huge", "capacity-negative", "capacity-9-dims", "capacity-zero"][c % 5], vi > 0, &[])
+            } else {
+                let jobs = d.p.plan.jobs.iter().enumerate().filter(|(_, j)| j.pickups.iter().chain(j.deliveries.iter()).chain(j.replacements.iter()).any(|t| !t.is_empty())).map(|(i, _)| i).collect::<Vec<_>>();
+                let ji = *jobs.get(b % jobs.len().max(1))?;
+                let mut lists = task_lists(&mut d.p.plan.jobs[ji]);
+                let task = lists[..3].iter_mut().flat_map(|(_, t)| t.iter_mut().flatten()).last()?;
+                let old = task.demand.clone().unwrap_or_default();
+                task.demand = Some([vec![], vec![1; 9], vec![i32::MAX / 4], old.iter().copied().chain([1]).collect()][c % 4].clone());
+                done(["demand-zero-length", "demand-9-dims", "demand-huge", "demand-extra-dim"][c % 4], ji > 0, &[])
+            }
+        }
+        "misc.scalar" => {
+            let vi = b % nv.max(1);
+            let big = [0., -1., 1e308, 5e-324][c % 4];
+            match a % 7 {
+                0 => {
+                    let mut lists = task_lists(d.p.plan.jobs.get_mut(b % nj.max(1))?);
+                    lists.iter_mut().flat_map(|(_, t)| t.iter_mut().flatten()).flat_map(|t| t.places.iter_mut()).last()?.duration = [1e300, 5e-324, 1e9][c % 3];
+                }
+                1 => d.p.fleet.vehicles.get_mut(vi)?.limits = Some(api::VehicleLimits { max_distance: Some(big), max_duration: Some(big), tour_size: None }),
+                2 => d.p.fleet.vehicles.get_mut(vi)?.limits = Some(api::VehicleLimits { max_distance: None, max_duration: None, tour_size: Some([0, 1, usize::MAX >> 1][c % 3]) }),
+                3 => d.p.fleet.vehicles.get_mut(vi)?.profile.scale = Some(big),
+                4 => d.p.fleet.vehicles.get_mut(vi)?.costs = api::VehicleCosts { fixed: Some([-5., 1e308][c % 2]), distance: [-1., 1e308][c % 2], time: [-1., 1e-300][c % 2] },
+                5 => {
+                    d.p.plan.jobs.get_mut(b % nj.max(1))?.value = Some(1e308);
+                    d.p.objectives = None;
+                }
+                _ => {
+                    let mi = b % d.m.len().max(1);
+                    let m = d.m.get_mut(mi)?;
+                    let k = c % m.distances.len().max(1);
+                    *m.distances.get_mut(k)? = [i64::MAX, -7, 0][c % 3];
+                    *m.travel_times.get_mut(k)? = [i64::MAX, -7, 0][(c / 3) % 3];
+                }
+            }
+            done(["duration", "limits", "tour-size", "scale", "costs", "value", "matrix-cell"][a % 7], b % nv.max(1) > 0 || b % nj.max(1) > 0, &[])
+        }
+        "misc.empty-collection" => {
+            let shift_sel = c;
+            match a % 8 {
+                0 => d.p.plan.jobs.clear(),
+                1 => d.p.fleet.vehicles.clear(),
+                2 => d.p.fleet.vehicles.get_mut(b % nv.max(1))?.vehicle_ids.clear(),
+                3 => d.p.fleet.vehicles.get_mut(b % nv.max(1))?.shifts.clear(),
+                4 | 5 => {
+                    let mut lists = task_lists(d.p.plan.jobs.get_mut(b % nj.max(1))?);
+                    let task = lists.iter_mut().flat_map(|(_, t)| t.iter_mut().flatten()).last()?;
+                    if a % 8 == 4 {
+                        task.places.clear();
+                    } else {
+                        task.places.last_mut()?.times = Some(vec![]);
+                    }
+                }
+                6 => {
+                    let (_, _, shift) = pick_shift(d, shift_sel)?;
+                    let (s0, s1, _) = shift_span(shift)?;
+                    let mut br = window_break(vec![tt(s0 + 10), tt((s0 + s1) / 2)]);
+                    if let api::VehicleBreak::Optional { places, .. } = &mut br {
+                        places.clear();
+                    }
+                    shift.breaks = Some(vec![br]);
+                }
+                _ => {
+                    d.p.fleet.vehicles.get_mut(b % nv.max(1))?.skills = Some(vec![]);
+                    d.p.plan.jobs.get_mut(c % nj.max(1))?.skills = Some(api::JobSkills { all_of: Some(vec![]), one_of: Some(vec![]), none_of: None });
+                }
+            }
+            done(["jobs", "vehicles", "vehicle-ids", "shifts", "places", "times", "break-places", "skills"][a % 8], b % nv.max(1) > 0 || b % nj.max(1) > 0, &[])
+        }
+        "misc.break-offset" => {
+            let (vi, si, shift) = pick_shift(d, b)?;
+            shift.start.latest = Some(shift.start.earliest.clone());
+            shift.breaks = Some(vec![offset_break([vec![10.], vec![10., 20., 30.], vec![-100., -10.], vec![500., 100.], vec![]][a % 5].clone())]);
+            done(["arity-1", "arity-3", "negative", "inverted", "arity-0"][a % 5], vi > 0 || si > 0, &[])
+        }
+        "misc.required-break" => {
+            let (vi, si, shift) = pick_shift(d, b)?;
+            let (s0, s1, _) = shift_span(shift)?;
+            shift.start.latest = Some(shift.start.earliest.clone());
+            let mid = (s0 + s1) / 2;
+            let time = match a % 4 {
+                0 => api::VehicleRequiredBreakTime::ExactTime { earliest: tt(mid), latest: tt(mid + 10) },
+                2 => api::VehicleRequiredBreakTime::ExactTime { earliest: MALFORMED[c % MALFORMED.len()].into(), latest: tt(mid + 10) },
+                _ => api::VehicleRequiredBreakTime::OffsetTime { earliest: 10., latest: 20. },
+            };
+            shift.breaks = Some(vec![api::VehicleBreak::Required { time, duration: 5. }]);
+            if a % 4 == 3 {
+                shift.start.earliest = MALFORMED[c % MALFORMED.len()].into();
+                shift.start.latest = Some(shift.start.earliest.clone());
+            }
+            done(["exact", "offset", "exact-malformed", "offset-with-malformed-shift-start"][a % 4], vi > 0 || si > 0, &[])
+        }
+        "misc.shift-time" => {
+            let (vi, si, shift) = pick_shift(d, b)?;
+            let (s0, s1, closed) = shift_span(shift)?;
+            match a % 6 {
+                0 => shift.start.latest = Some(MALFORMED[c % MALFORMED.len()].into()),
+                1 => shift.start.latest = Some(tt(s0 - 100)),
+                2 => shift.end.as_mut()?.earliest = Some(MALFORMED[c % MALFORMED.len()].into()),
+                3 => shift.end.as_mut()?.earliest = Some(tt(s0 + 1)),
+                4 => shift.start.earliest = shift.start.earliest.replace('Z', "+00:00"),
+                _ => shift.end.as_mut()?.latest = if closed { tt(s1).replace('Z', ".000Z") } else { return None },
+            }
+            done(["start-latest-malformed", "start-latest-before-earliest", "end-earliest-malformed", "end-earliest", "offset-notation", "fraction"][a % 6], vi > 0 || si > 0, &[])
+        }
+        "misc.recharge" => {
+            let (vi, si, shift) = pick_shift(d, b)?;
+            let (s0, s1, _) = shift_span(shift)?;
+            let times = match a % 3 {
+                0 => None,
+                1 => Some(vec![vec![tt(s0), MALFORMED[c % MALFORMED.len()].to_string()]]),
+                _ => Some(vec![vec![tt(s1), tt(s0)]]),
+            };
+            shift.recharges = Some(api::VehicleRecharges { max_distance: 1000., stations: vec![api::JobPlace { location: shift.start.location.clone(), duration: 5., times, tag: None }] });
+            done(["plain", "station-time-malformed", "station-time-inverted"][a % 3], vi > 0 || si > 0, &[])
+        }
+        "misc.custom-location" => {
+            let total = all_locations(&d.p).len();
+            let (mut k, target) = (0, a % total.max(1));
+            for_each_location(&mut d.p.plan, &mut d.p.fleet.vehicles, &mut |l| {
+                if k == target {
+                    *l = Loc::Custom { r#type: CustomLocationType::Unknown };
+                }
+                k += 1;
+            });
+            done("unknown", target > 0, &[])
+        }
+        _ => None,
+    }
+}
+
+// ---------------------------------------------------------------------------------------------
+// sub-check 1: fault injection
+// ---------------------------------------------------------------------------------------------
+
+fn base_doc(case: &ValCase) -> Doc {
+    let rendered = render(&case.spec);
+    let mut d = Doc { p: rendered.problem, m: rendered.matrices, approx: case.geo };
+    if case.geo {
+        let coords = case.spec.coords.clone();
+        for_each_location(&mut d.p.plan, &mut d.p.fleet.vehicles, &mut |l| {
+            if let Loc::Reference { index } = l {
+                let (x, y) = coords[*index % coords.len()];
+                // distinct per index (indices were compacted by the renderer)
+                *l = Loc::Coordinate { lat: 52. + x as f64 * 0.001 + *index as f64 * 0.0001, lng: 13. + y as f64 * 0.001 };
+            }
+        });
+        d.m.clear();
+    }
+    d
+}
+
+fn build(case: &ValCase, only: Option<usize>) -> (Doc, Vec<Applied>) {
+    let mut d = base_doc(case);
+    let applied = case.faults.iter().enumerate().filter(|(i, _)| only.is_none_or(|o| o == *i)).filter_map(|(_, f)| apply(&mut d, f)).collect();
+    (d, applied)
+}
+
+fn known(sig: &str, stats: &Stats) -> bool {
+    let open = known_open(PROPERTY, sig);
+    if open {
+        stats.known_hit(sig);
+    }
+    open
+}
+
+fn judge(case: &ValCase, d: &Doc, applied: &[Applied], text: bool, stats: &Stats) -> Check {
+    let form = if text { "json text" } else { "model" };
+    // the text form is judged on what the text says (untagged enums may re-parse differently)
+    let seen = if text {
+        match serde_json::from_str::<api::Problem>(&ser(&d.p)) {
+            Ok(p) => Doc { p, m: d.m.clone(), approx: d.approx },
+            Err(_) => {
+                stats.class("text.not-reparsable");
+                return Ok(());
+            }
+        }
+    } else {
+        d.clone()
+    };
+    let rules = reference(&seen);
+    let labels = applied.iter().map(|x| x.label.as_str()).collect::<Vec<_>>().join(" + ");
+    let dump = || ser(&json!({"problem": d.p, "matrices": d.m, "read_with_matrices": !d.approx}));
+    stats.eval();
+    let codes = match read(d, text) {
+        Ok(codes) => codes,
+        Err(panic) => {
+            stats.class("outcome.panic");
+            // attribute to a single fault when one alone reproduces the panic
+            let single = (0..case.faults.len()).filter(|_| applied.len() > 1).find_map(|i| {
+                let (d1, a1) = build(case, Some(i));
+                (a1.len() == 1 && read(&d1, text).is_err()).then(|| a1[0].sig().to_string())
+            });
+            // ... or to an applied fault whose own panic is an open known finding (family excluded from combinations)
+            let single = single.or_else(|| applied.iter().filter(|_| applied.len() > 1).map(|x| x.sig().to_string()).find(|l| known_open(PROPERTY, &format!("validate:panic:{l}"))));
+            // ... or to the sparse-index family when the faults together produced a sparse index set
+            let single = single.or_else(|| rules.derived.first().filter(|_| applied.len() > 1).cloned());
+            let sig = format!("validate:panic:{}", single.unwrap_or_else(|| if applied.is_empty() { "no-fault".to_string() } else { applied.iter().map(|x| x.sig()).collect::<Vec<_>>().join("+") }));
+            if known(&sig, stats) {
+                return Ok(());
+            }
+            return Err(Failure::new(sig, format!("read_pragmatic ({form}) panicked: {panic}\nfaults: {labels}\n{}", dump())));
+        }
+    };
+    stats.class(if codes.is_empty() { "outcome.accepted" } else { "outcome.rejected" });
+    if applied.is_empty() {
+        ensure!(codes.is_empty(), "harness:generator-invalid", "generated base document was rejected with {codes:?}\n{}", dump());
+    }
+    for (code, sites) in rules.broken.iter() {
+        stats.class(&format!("rule.{code}.broken"));
+        if !codes.iter().any(|c| c == code) {
+            for site in sites {
+                let sig = format!("validate:accepted-broken:{code}:{site}");
+                if !known(&sig, stats) {
+                    return Err(Failure::new(sig, format!("documented rule {code} is broken at {site} but read_pragmatic ({form}) answered {}\nfaults: {labels}\n{}", if codes.is_empty() { "Ok".to_string() } else { format!("{codes:?}") }, dump())));
+                }
+            }
+        }
+    }
+    for code in codes.iter() {
+        stats.class(&format!("rule.{code}.reported"));
+        let justified = rules.broken.contains_key(code.as_str()) || rules.unspec.contains(code.as_str()) || applied.iter().any(|x| x.allow.contains(&code.as_str()));
+        if !justified {
+            let sig = format!("validate:spurious-code:{code}");
+            if !known(&sig, stats) {
+                let why = if ALL_RULES.contains(&code.as_str()) { "no rule of that code is broken by the document" } else { "the code is not justified by any applied fault" };
+                return Err(Failure::new(sig, format!("read_pragmatic ({form}) reported {codes:?}: {why}\nfaults: {labels}\n{}", dump())));
+            }
+        }
+    }
+    for code in rules.unspec.iter() {
+        stats.class(&format!("unspecified.{code}"));
+    }
+    Ok(())
+}
+
+pub struct FaultProp;
+
+impl Prop for FaultProp {
+    type Case = ValCase;
+    fn name(&self) -> &'static str {
+        "validate_faults"
+    }
+    fn strategy(&self, tier: Tier) -> BoxedStrategy<ValCase> {
+        let names = FAMILIES.iter().chain(MISC_MORE.iter()).map(|s| s.to_string()).collect::<Vec<_>>();
+        let fault = (prop::sample::select(names), any::<u16>(), any::<u16>(), any::<u16>()).prop_map(|(kind, a, b, c)| FaultSel { kind, a, b, c });
+        let faults = prop_oneof![6 => prop::collection::vec(fault.clone(), 1), 3 => prop::collection::vec(fault.clone(), 2), 1 => prop::collection::vec(fault, 3)];
+        (problem_spec(tier.pick(6, 10)), prop::bool::weighted(0.15), faults).prop_map(|(spec, geo, faults)| ValCase { spec, geo, faults }).boxed()
+    }
+    fn cases(&self, tier: Tier) -> u32 {
+        tier.pick(60_000, 3_000_000)
+    }
+    fn shards(&self, _tier: Tier) -> u32 {
+        16
+    }
+    fn max_shrink_iters(&self) -> u32 {
+        600
+    }
+    fn check(&self, case: &ValCase, stats: &Stats) -> Check {
+        let base = base_doc(case);
+        judge(case, &base, &[], false, stats)?;
+        let (doc, applied) = build(case, None);
+        for f in case.faults.iter() {
+            stats.class(&format!("fault.{}", f.kind));
+        }
+        if applied.len() < case.faults.len() {
+            stats.class("fault-not-applicable-to-document");
+        }
+        if applied.is_empty() {
+            return Ok(());
+        }
+        for x in applied.iter() {
+            stats.class(&format!("site.{}", x.label));
+        }
+        stats.class(&format!("faults.{}", applied.len()));
+        stats.class(if case.geo { "form.geo-approximated" } else { "form.index-with-matrices" });
+        if applied.iter().any(|x| x.not_first) {
+            stats.nontrivial(hash_of(&format!("{case:?}")));
+            stats.class("nontrivial");
+        }
+        stats.sample(3, || json!({"kind": "validate_faults", "faults": applied.iter().map(|x| x.label.clone()).collect::<Vec<_>>(), "geo": case.geo, "jobs": doc.p.plan.jobs.len()}));
+        judge(case, &doc, &applied, false, stats)?;
+        judge(case, &doc, &applied, true, stats)
+    }
+}
+
+// ---------------------------------------------------------------------------------------------
+// sub-check 2: syntactically broken / truncated / wrongly shaped JSON text
+// ---------------------------------------------------------------------------------------------
+
+#[derive(Clone, Debug, Serialize, Deserialize)]
+pub struct JsonCase {
+    pub spec: ProblemSpec,
+    pub matrix: bool,
+    pub mutation: u8,
+    pub pos: u16,
+}
+
+pub struct JsonProp;
+
+const REQUIRED_KEYS: [&str; 12] = ["\"plan\"", "\"fleet\"", "\"jobs\"", "\"vehicles\"", "\"profiles\"", "\"typeId\"", "\"vehicleIds\"", "\"costs\"", "\"shifts\"", "\"capacity\"", "\"earliest\"", "\"duration\""];
+
+impl Prop for JsonProp {
+    type Case = JsonCase;
+    fn name(&self) -> &'static str {
+        "validate_broken_json"
+    }
+    fn strategy(&self, _tier: Tier) -> BoxedStrategy<JsonCase> {
+        (problem_spec(4), prop::bool::weighted(0.25), 0u8..4, any::<u16>()).prop_map(|(spec, matrix, mutation, pos)| JsonCase { spec, matrix, mutation, pos }).boxed()
+    }
+    fn cases(&self, tier: Tier) -> u32 {
+        tier.pick(20_000, 1_000_000)
+    }
+    fn shards(&self, _tier: Tier) -> u32 {
+        16
+    }
+    fn check(&self, c: &JsonCase, stats: &Stats) -> Check {
+        let rendered = render(&c.spec);
+        let mut problem = ser(&rendered.problem);
+        let mut matrices = rendered.matrices.iter().map(ser).collect::<Vec<_>>();
+        let target = if c.matrix { &mut matrices[0] } else { &mut problem };
+        let original = target.clone();
+        let name = match c.mutation {
+            0 => {
+                target.truncate(pick_idx(c.pos, original.len()));
+                "truncated"
+            }
+            1 => {
+                let structural = original.char_indices().filter(|(_, ch)| matches!(ch, '{' | '}' | '[' | ']' | '"')).map(|(i, _)| i).collect::<Vec<_>>();
+                target.remove(structural[pick_idx(c.pos, structural.len())]);
+                "structural-char-deleted"
+            }
+            2 => {
+                let keys: Vec<&str> = if c.matrix { vec!["\"distances\"", "\"travelTimes\""] } else { REQUIRED_KEYS.iter().copied().filter(|k| original.contains(k)).collect() };
+                *target = original.replacen(keys[pick_idx(c.pos, keys.len())], "\"zz\"", 1);
+                "required-key-renamed"
+            }
+            _ => {
+                let (from, to) = if c.matrix { ("\"distances\":[", "\"distances\":7,\"zz\":[") } else { [("\"jobs\":[", "\"jobs\":7,\"zz\":["), ("\"capacity\":[", "\"capacity\":\"x\",\"zz\":["), ("\"vehicles\":[", "\"vehicles\":{},\"zz\":[")][c.pos as usize % 3] };
+                *target = original.replacen(from, to, 1);
+                "wrong-type"
+            }
+        };
+        ensure!(*target != original, "harness:json-mutation-noop", "mutation {name} did not change the text");
+        let wellformed = serde_json::from_str::<serde_json::Value>(target).is_ok();
+        ensure!(c.mutation >= 2 || !wellformed, "harness:json-mutation-wellformed", "mutation {name} left well-formed JSON: {target}");
+        let expected = if c.matrix { "E0001" } else { "E0000" };
+        let text = target.clone();
+        stats.eval();
+        let result = guard(|| codes_of((problem.clone(), matrices.clone()).read_pragmatic()));
+        let codes = result.map_err(|p| Failure::new(format!("validate:panic:json:{name}"), format!("read_pragmatic panicked on broken JSON text: {p}\n{text}")))?;
+        ensure!(codes == vec![expected.to_string()], format!("validate:json:{name}:{}", if codes.is_empty() { "accepted" } else { "wrong-code" }), "expected exactly [{expected}] for {name} JSON ({}), got {codes:?}\n{text}", if c.matrix { "matrix" } else { "problem" });
+        if !c.matrix {
+            // single-document form (approximated routing) goes through the same deserializer
+            let codes = guard(|| codes_of(text.clone().read_pragmatic())).map_err(|p| Failure::new(format!("validate:panic:json:{name}"), format!("read_pragmatic (single text) panicked: {p}\n{text}")))?;
+            ensure!(codes == vec!["E0000".to_string()], format!("validate:json:{name}:single-text"), "expected [E0000], got {codes:?}\n{text}");
+        }
+        stats.class(&format!("json.{name}"));
+        stats.class(if c.matrix { "json.target-matrix" } else { "json.target-problem" });
+        if wellformed {
+            stats.class("json.wellformed-but-wrong-shape");
+        }
+        if c.pos > 0 {
+            stats.nontrivial(hash_of(&format!("{c:?}")));
+        }
+        Ok(())
+    }
+}
 
 pub fn property(_tier: Tier) -> PropertyDef {
-    PropertyDef { id: "STUB", level: "exploration", rule: "stub", assumptions: vec![], props: vec![], extra: None, required_classes: vec!["stub.never"] }
+    let mut required: Vec<&'static str> = vec![
+        "nontrivial", "outcome.accepted", "outcome.rejected", "faults.1", "faults.2", "faults.3", "form.geo-approximated", "form.index-with-matrices",
+        "json.truncated", "json.structural-char-deleted", "json.required-key-renamed", "json.wrong-type", "json.target-matrix", "json.target-problem",
+    ];
+    for f in FAMILIES.iter().chain(MISC_MORE.iter()) {
+        required.push(Box::leak(format!("fault.{f}").into_boxed_str()));
+    }
+    for what in ["malformed", "inverted", "intersect"] {
+        for site in ["pickups", "deliveries", "replacements", "services", "shift", "break", "reload"] {
+            for n in ["n1-2", "n3+"] {
+                required.push(Box::leak(format!("site.tw.{what}:{site}:{n}").into_boxed_str()));
+            }
+        }
+    }
+    for code in ALL_RULES {
+        required.push(Box::leak(format!("rule.{code}.broken").into_boxed_str()));
+    }
+    PropertyDef {
+        id: PROPERTY,
+        level: "exploration",
+        rule: "proptest: (validate_faults) a valid pragmatic document from the problem generator (3-9 locations, 1-6 jobs (thorough 10), 1-3 vehicle types, all generator features; 15% converted to geo coordinates and read without matrices) must be accepted; then 1-3 faults from a named catalogue of 56 families (every documented rule E1100-E1107, E1200-E1207, E1300-E1308, E1500-E1505, E1600-E1607: duplicate ids, missing/extra/negative demand, unbalanced pickup-delivery, malformed / inverted / intersecting / wrong-arity / outside-shift time windows at every site - pickups, deliveries, replacements, services, shifts, optional breaks, reloads - with 1-4 windows and every window index, reserved ids, empty jobs, relation faults, zero costs, offset break with rescheduling, resource ids, profiles, mixed locations, missing / too small / too large / sparse / ragged matrices, objective-list faults; plus schema-shaped values no rule mentions: empty/huge/negative/9-dim vectors, empty collections, extreme finite floats, wrong-arity break offsets, required breaks, start.latest / end.earliest, recharge stations, custom locations, exotic and nested objectives) are applied. Oracle per document, for the model form `(Problem, Vec<Matrix>)`/`Problem` and for the serialized text form: (a) no panic (fw::guard); (b) a reference reading of docs/src/concepts/pragmatic/errors/index.md evaluates every rule on the final document to Broken(site) / NotBroken / Unspecified: every Broken rule's code must be reported (else validate:accepted-broken:<code>:<site>), every reported code must belong to a Broken or Unspecified rule or be a generic code the applied fault allows (else validate:spurious-code:<code>); hence a document with no Broken and no Unspecified rule must be accepted. (validate_broken_json) truncated text, a deleted structural character, a renamed required key or a wrongly typed member in the problem or a matrix text must give exactly [E0000] / [E0001] and no panic. Non-trivial: >=1 fault applied and for at least one the faulted element is not the first of its collection (broken JSON: mutation position > 0). Distinct by case hash. Open known findings (known_findings.json) are counted per signature and excluded so the search continues behind them.",
+        assumptions: vec![
+            "the reference predicates in engines/validate.rs are a faithful three-valued reading of the error index; wherever the text is silent or visibly narrower/wider than the code (start == end windows, touching windows, partially overlapping break/reload vs shift, open-ended shifts among several, matrix larger than needed, E1203 on `any` relations, objectives nested in multi-objective, E1605 without an `objectives` property, empty `times`, zero-length demand, start.latest, end.earliest, required/offset breaks) the rule is Unspecified: counted (unspecified.<code>), never asserted",
+            "date strings are taken from a strict RFC3339 generator or a fixed list of clearly malformed strings; other strings count as Unspecified",
+            "only finite floats and integers within i32::MAX/4 are generated (the harness is built with overflow checks, which a release build of the library does not have)",
+            "generic codes E0000/E0002 are accepted only for fault families that touch matrix/profile consistency or objective composition",
+        ],
+        props: vec![Box::new(FaultProp), Box::new(JsonProp)],
+        extra: None,
+        required_classes: required,
+    }
 }
